@@ -507,6 +507,42 @@ func pa5(c *Ctx, p *Prog, rule string, scope paScope) int {
 			if !ok || (sh.Op != token.SHL && sh.Op != token.SHR) || !isBB(sh.Type()) {
 				return
 			}
+			// the neighbour square by index arithmetic: 1 << (sq ± 1|7|9) steps onto the other edge file from an edge square
+			if one, isOne := constOf(sh.X); isOne && one == 1 && sh.Op == token.SHL {
+				if step, ok := stripConv(sh.Y).(*ssa.BinOp); ok && (step.Op == token.ADD || step.Op == token.SUB) {
+					if d, isc := constOf(step.Y); isc && (d == 1 || d == 7 || d == 9) {
+						if _, baseConst := stripConv(step.X).(*ssa.Const); !baseConst {
+							ord++
+							n++
+							key := fmt.Sprintf("%s#file-shift@%d", fnName(fn), ord)
+							guarded := false
+							for _, ce := range controllingConds(sh.Block()) {
+								for v := range backSlice(ce.Cond, sliceOpts{ThroughCalls: true}) {
+									if _, ok := fileOf(v); ok {
+										guarded = true
+									}
+								}
+							}
+							// masked result: & ^AFile / & ^HFile on the single-bit board
+							rpos, rneg := andContext(sh)
+							for _, l := range append(rpos, rneg...) {
+								if kc, ok := stripConv(l).(*ssa.Const); ok && kc.Value != nil {
+									u := kc.Uint64()
+									if u&aFile == 0 || u&hFile == 0 || u&aFile == aFile || u&hFile == hFile {
+										guarded = true
+									}
+								}
+							}
+							if guarded {
+								c.Ok(rule, key, sh.Pos(), "the square stepped sideways by %d is guarded by a file test or mask", d)
+							} else {
+								c.Fail(rule, key, sh.Pos(), "a square index is stepped sideways by %d without a file test or mask: from an edge file the neighbour is a square on the opposite edge of the next rank", d)
+							}
+							return
+						}
+					}
+				}
+			}
 			k, isc := constOf(sh.Y)
 			if !isc || (k != 1 && k != 7 && k != 9) {
 				return
